@@ -13,10 +13,20 @@
 (*   files   Seq of model files (file 1 is the main model, the others are  *)
 (*           the imported models in the order they enter the repository);  *)
 (*           a file is a Seq of statements in textual order, a statement   *)
-(*           is [list |-> BOOLEAN, refs |-> Seq of reference ids]:         *)
+(*           is one reference attribute of one object:                     *)
+(*           [list |-> BOOLEAN, refs |-> Seq of reference ids, join]       *)
 (*           `use r` (single attribute) or `refs r1, r2, ..` (list         *)
-(*           attribute).  References are numbered 1..N in textual order,   *)
-(*           file after file; reference r points at target r.              *)
+(*           attribute).  `join` says how the attribute sits in the object *)
+(*           structure: "none" an object of its own; "attr" a further      *)
+(*           attribute of the same object as the previous statement;       *)
+(*           "parent" the same-named list of the object whose first child  *)
+(*           (starting at the same input position) owns the previous       *)
+(*           statement.  The documented semantics does not depend on it.   *)
+(*           References are numbered 1..N in textual order, file after     *)
+(*           file.                                                         *)
+(*   tgt     [ref -> target]  reference r points at target tgt[r]; several *)
+(*           references may point at the same target (targets are named    *)
+(*           by the first reference pointing at them)                      *)
 (*   sched   [ref -> Nat]  the provider answers Postponed on the first     *)
 (*           sched[r] attempts for r                               (C08)   *)
 (*   deps    [ref -> SUBSET refs]  afterwards it answers Postponed until   *)
@@ -83,14 +93,30 @@ IsList(r)    == sc.files[ModelOf(r)][StmtOf(r)].list
 
 \* references are numbered in textual order, file after file; a single
 \* attribute holds exactly one reference, a list attribute at least one
+JoinOK(f) ==
+  \A k \in 1..Len(f) :
+     /\ f[k].join \in {"none", "attr", "parent"}
+     /\ (f[k].join # "none" => k > 1)
+     \* the parent's list follows the list of its first child; nothing joins the parent
+     /\ (f[k].join = "parent" => /\ f[k].list /\ f[k - 1].list /\ f[k - 1].join = "none"
+                                 /\ (k < Len(f) => f[k + 1].join = "none"))
+     \* an object with several reference attributes: list [list] [single]
+     /\ (f[k].join = "attr" =>
+           /\ f[k - 1].list
+           /\ \/ f[k - 1].join = "none"
+              \/ (f[k - 1].join = "attr" /\ ~f[k].list /\ k > 2 /\ f[k - 2].join = "none"))
+
 WellFormed(s) ==
   /\ NMOf(s) >= 1
   /\ Flat([m \in 1..NMOf(s) |-> FileRefsOf(s, m)]) = [i \in 1..NOf(s) |-> i]
-  /\ \A m \in 1..NMOf(s) : \A k \in 1..Len(s.files[m]) :
-        /\ Len(s.files[m][k].refs) >= 1
-        /\ (~s.files[m][k].list => Len(s.files[m][k].refs) = 1)
-  /\ Len(s.deps) = NOf(s)
+  /\ \A m \in 1..NMOf(s) :
+        /\ JoinOK(s.files[m])
+        /\ \A k \in 1..Len(s.files[m]) :
+             /\ Len(s.files[m][k].refs) >= 1
+             /\ (~s.files[m][k].list => Len(s.files[m][k].refs) = 1)
+  /\ Len(s.deps) = NOf(s) /\ Len(s.tgt) = NOf(s)
   /\ \A r \in 1..NOf(s) : s.deps[r] \subseteq 1..NOf(s)
+  /\ \A r \in 1..NOf(s) : s.tgt[r] \in 1..r /\ s.tgt[s.tgt[r]] = s.tgt[r]
   /\ s.never \subseteq 1..NOf(s) /\ s.unknown \subseteq 1..NOf(s)
 
 ----------------------------------------------------------------------------
@@ -211,6 +237,11 @@ FairSpec == Spec /\ WF_vars(Next)
 ----------------------------------------------------------------------------
 \* Properties
 Idle == pc = "idle"
+
+\* what an observer sees: the targets held by the attributes / named by the error
+TargetsOf(q) == [i \in 1..Len(q) |-> sc.tgt[q[i]]]
+AttrTargets  == [m \in Models |-> [k \in Stmts(m) |-> TargetsOf(attrs[m][k])]]
+NameTargets  == TargetsOf(outcome.names)
 
 TypeOK ==
   /\ WellFormed(sc)
